@@ -278,7 +278,7 @@ Placements(d) ==
      \cup (IF MaxComments >= 1 THEN {<<c>> : c \in UNION {OneAt(gs, i) : i \in el}} ELSE {})
      \cup (IF MaxComments >= 2
            THEN UNION {{<<c1, c2>> : c1 \in OneAt(gs, ij[1]), c2 \in {x \in OneAt(gs, ij[2]) : x.sp = "plain"}} :
-                         ij \in {p \in el \X el : p[1] <= p[2]}}
+                         ij \in {p \in el \X el : p[1] <= p[2] /\ p[2] <= p[1] + 3}}     \* the same or a neighbouring gap
            ELSE {})
 
 \* The syntax of the decorated document: declaration i carries p_lead iff a comment sits in its first gap
